@@ -40,7 +40,7 @@ def discardable (code : Nat) : Bool :=
 
 def flagBits (f : Nat) : Bool × Bool := (f / 128 % 2 == 1, f / 64 % 2 == 1)
 
-/-- AS path segments with `w` octets per AS number; `nz`: an empty segment is malformed (AS4_PATH) -/
+/-- AS path segments with `w` octets per AS number; `nz`: an empty segment is malformed (RFC 7606 §7.2) -/
 def segsOk (w : Nat) (nz : Bool) : Nat → Bytes → Bool
   | _, [] => true
   | _, [_] => false
@@ -61,7 +61,7 @@ def aigpOk : Nat → Bytes → Bool
 def validValue (two : Bool) (code : Nat) (data : Bytes) : Bool :=
   let len := data.length
   if code = 1 then len == 1 && data.all (· ≤ 2)
-  else if code = 2 then segsOk (if two then 2 else 4) false (len + 1) data
+  else if code = 2 then segsOk (if two then 2 else 4) true (len + 1) data
   else if code = 3 then len == 4
   else if code = 4 ∨ code = 5 ∨ code = 9 then len == 4
   else if code = 6 then len == 0
@@ -112,7 +112,22 @@ def corrIdxOk (n : Nat) : Corr → Bool
 
 def hasAttr (u : CUpdate) (code : Nat) : Bool := u.attrs.any (·.code == code)
 
-/-- `u` is a valid UPDATE for codec `c` and `cs` refers to it: the property's quantifier -/
+def octets (b : Bytes) : Bool := b.all (· < 256)
+
+/-- everything that is rendered as octets is an octet -/
+def octetsOk (u : CUpdate) (cs : List Corr) : Bool :=
+  let pOk (p : CPfx) : Bool := p.mask < 256 && octets p.addr
+  u.wd.all pOk && u.nlri.all pOk && u.attrs.all (fun a => octets a.data)
+    && (match u.mpr with | some m => octets m.nh && m.nlri.all pOk | none => true)
+    && (match u.mpu with | some m => m.nlri.all pOk | none => true)
+    && cs.all fun k => match k with
+      | .data _ d => octets d
+      | .dup _ d => octets d
+      | .unknown _ _ d => octets d
+      | _ => true
+
+/-- `u` is a valid UPDATE for codec `c`, `cs` refers to it and the result is a frame of legal size:
+    the property's quantifier -/
 def wfCase (c : Codec) (u : CUpdate) (cs : List Corr) : Bool :=
   let legacyOk :=
     (u.wd.isEmpty && u.nlri.isEmpty) ||
@@ -143,11 +158,18 @@ def wfCase (c : Codec) (u : CUpdate) (cs : List Corr) : Bool :=
     && (announces || !u.wd.isEmpty || u.mpu.isSome)
     && cs.all (corrIdxOk (rcodes u).length)
     && distinctCodes (cs.filterMap fun k => match k with | .unknown _ code _ => some code | _ => none)
+    && (render c u cs).length ≤ c.maxLen
+    && (blockItems c u cs).all (fun w => w.data.length < 65536)
+    && octetsOk u cs
     && u.attrs.length ≤ 40 && u.wd.length ≤ 40 && u.nlri.length ≤ 40
     && (match u.mpr with | some m => m.nlri.length ≤ 40 | none => true)
     && (match u.mpu with | some m => m.nlri.length ≤ 40 | none => true)
 
-/-! ### classification of a corruption (from the attribute TYPE) -/
+/-! ### classification (from the attribute TYPE) of what is on the wire
+
+  The case language (`Rbgp.Wire.UpdateCase`) says which attributes the corrupted UPDATE carries: `effAttrs` are the
+  attributes of `u` with the corruptions applied (same positions), followed by the appended unrecognised ones;
+  `blockItems` are the items of the attribute block in wire order.  Each item gets the classes its state calls for. -/
 
 inductive Cls where
   | none                         -- not an error
@@ -162,144 +184,74 @@ def malformedCls (code : Nat) : Cls := if discardable code then .discardOrTaw co
 
 def isMp (code : Nat) : Bool := code == 14 || code == 15
 
-/-- rendered size of attribute `i` (header + value) as far as the checker needs it for truncation -/
-def attrSize (flags dataLen : Nat) : Nat := (if flags / 16 % 2 == 1 then 4 else 3) + dataLen
+def extBit (flags : Nat) : Bool := flags &&& 0x10 != 0
 
-def classify (two : Bool) (u : CUpdate) (announces legacyNlri : Bool) : Corr → Cls
-  | .flags i f =>
-      match (rcodes u)[i]? with
-      | some code =>
-          if some (flagBits f) == attrClass code then .none
-          else if isMp code then .tawOrReset
-          else malformedCls code
-      | none => .none
-  | .data i d =>
-      match (rcodes u)[i]? with
-      | some code =>
-          if isMp code then .weak
-          else if validValue two code d then .none
-          else malformedCls code
-      | none => .none
-  | .lenfield _ _ => .weak
-  | .dup i d =>
-      match (rcodes u)[i]? with
-      | some code => if isMp code then .weak else .dup code d
-      | none => .none
-  | .omit i =>
-      match (rcodes u)[i]? with
-      | some code =>
-          if (code == 1 || code == 2) && announces then .taw
-          else if code == 3 && legacyNlri then .taw
-          else if isMp code then .weak
-          else .none
-      | none => .none
-  | .trunc _ => .none   -- judged by `truncCls` from the wire layout
-  | .unknown _ _ _ => .none   -- judged by `survivorCls` from the wire layout
-  | .nlribad _ => if legacyNlri then .weak else .none
+/-- an attribute of `u` that is not on the wire at all (omitted, or lost to truncation) -/
+def goneCls (announces legacyNlri : Bool) (code : Nat) : Cls :=
+  if isMp code then .weak
+  else if (code == 1 || code == 2) && announces then .taw
+  else if code == 3 && legacyNlri then .taw
+  else .none
 
-/-! ### which corruptions are in effect (a later one of the same kind on the same attribute replaces an
-    earlier one; nothing done to an omitted attribute matters) -/
+/-- attribute types whose stored value is the wire value, so that "the second copy was believed" can be read off
+    the output (AS_PATH, AGGREGATOR, AS4_* are re-encoded on receipt and are not judged by this clause) -/
+def identityStored (code : Nat) : Bool := [1, 4, 5, 9, 8, 10, 16, 32, 26].contains code
 
-def corrTarget : Corr → Option Nat
-  | .flags i _ => some i
-  | .data i _ => some i
-  | .lenfield i _ => some i
-  | .dup i _ => some i
-  | _ => none
+/-- a length that the 1-octet length field cannot carry: the framing of the block is broken -/
+def lenUnfit (flags len : Nat) : Bool := !extBit flags && len > 255
 
-def sameSlot : Corr → Corr → Bool
-  | .flags i _, .flags j _ => i == j
-  | .data i _, .data j _ => i == j
-  | .lenfield i _, .lenfield j _ => i == j
-  | .dup i _, .dup j _ => i == j
-  | .omit i, .omit j => i == j
-  | .nlribad _, .nlribad _ => true
-  | _, _ => false
+/-- what a wire item calls for when it is entirely on the wire -/
+def itemCls (two : Bool) (w : WItem) : List Cls :=
+  (if w.lenOv || lenUnfit w.flags w.data.length then [Cls.weak] else [])
+    ++ (if w.kind = 0 then
+          (if isMp w.code then
+            (if w.data != w.origData then [Cls.weak] else [])
+              ++ (if some (flagBits w.flags) != attrClass w.code then [Cls.tawOrReset] else [])
+          else
+            (if some (flagBits w.flags) != attrClass w.code then [malformedCls w.code] else [])
+              ++ (if !validValue two w.code w.data then [malformedCls w.code] else []))
+        else if w.kind = 1 then
+          (if isMp w.code then [Cls.weak]
+           else if identityStored w.code && w.data != w.firstData then [Cls.dup w.code w.data] else [])
+        else
+          (if w.flags / 128 % 2 == 0 then [Cls.taw] else []))
 
-def omitted (cs : List Corr) : List Nat :=
-  cs.filterMap fun c => match c with | .omit i => some i | _ => none
-
-def liveCorrs (om : List Nat) : List Corr → List Corr
-  | [] => []
-  | c :: rest =>
-      let dead := rest.any (sameSlot c) || (match corrTarget c with | some i => om.contains i | none => false)
-      (if dead then [] else [c]) ++ liveCorrs om rest
-
-/-! ### truncation of the attribute block: which attributes disappear, which one is cut -/
-
-structure EAttr where
+/-- an item with what it calls for when it is entirely on the wire (`cls`) and when it is entirely missing (`gone`) -/
+structure SItem where
+  size : Nat
   code : Nat
   flags : Nat
-  dataLen : Nat
-  /-- a second copy made by a `dup` corruption, or an appended unrecognised attribute -/
-  extra : Bool := false
-  /-- what the corruptions applied to this attribute call for, provided it is entirely on the wire -/
-  cls : List Cls := []
+  cls : List Cls
+  gone : Cls
   deriving DecidableEq, Repr
 
-def pfxSize (addpath : Bool) (p : CPfx) : Nat := (if addpath then 4 else 0) + 1 + p.addr.length
+def sItemOf (two announces legacyNlri : Bool) (w : WItem) : SItem :=
+  { size := (renderItem w).length, code := w.code, flags := w.flags, cls := itemCls two w,
+    gone := if w.kind = 0 then goneCls announces legacyNlri w.code else Cls.none }
 
-def baseEAttrs (c : Codec) (u : CUpdate) : List EAttr :=
-  let ap (afi safi : Nat) : Bool := (negotiated c (famKey afi safi)).getD false
-  (u.attrs.map fun a => ({ code := a.code, flags := a.flags, dataLen := a.data.length } : EAttr))
-    ++ (match u.mpr with
-        | some m =>
-            let n := 2 + 1 + 1 + m.nh.length + 1 + ((m.nlri.map (pfxSize (ap m.afi m.safi))).foldl (· + ·) 0)
-            [{ code := 14, flags := if n > 255 then 0x90 else 0x80, dataLen := n }]
-        | none => [])
-    ++ (match u.mpu with
-        | some m =>
-            let n := 2 + 1 + ((m.nlri.map (pfxSize (ap m.afi m.safi))).foldl (· + ·) 0)
-            [{ code := 15, flags := if n > 255 then 0x90 else 0x80, dataLen := n }]
-        | none => [])
-
-/-- attributes on the wire, last first, after the live corruptions other than truncation -/
-def wireAttrsRev (c : Codec) (u : CUpdate) (announces legacyNlri : Bool) (live : List Corr) : List EAttr :=
-  let base := baseEAttrs c u
-  let idx := List.range base.length
-  let one (i : Nat) (a : EAttr) : List EAttr :=
-    if live.any (fun k => match k with | .omit j => i == j | _ => false) then []
-    else
-      let mine := live.filter fun k => match k with
-        | .flags j _ => i == j
-        | .data j _ => i == j
-        | _ => false
-      let fl := mine.foldl (fun acc k => match k with | .flags _ f => f | _ => acc) a.flags
-      let dl := mine.foldl (fun acc k => match k with | .data _ d => d.length | _ => acc) a.dataLen
-      let dups := live.filterMap fun k => match k with | .dup j d => if i == j then some d else none | _ => none
-      [{ a with flags := fl, dataLen := dl, cls := mine.map (classify c.two u announces legacyNlri) }] ++
-        (dups.map fun d =>
-          ({ code := a.code, flags := fl, dataLen := d.length, extra := true,
-             cls := [classify c.two u announces legacyNlri (.dup i d)] } : EAttr))
-  let main := ((idx.zip base).map fun (i, a) => one i a).flatten
-  let unk := live.filterMap fun k => match k with
-    | .unknown f code d =>
-        some ({ code := code, flags := f, dataLen := d.length, extra := true,
-                cls := if f / 128 % 2 == 0 then [Cls.taw] else [] } : EAttr)
-    | _ => none
-  (main ++ unk).reverse
+/-- all items of the block in wire order -/
+def sItems (c : Codec) (u : CUpdate) (cs : List Corr) (announces legacyNlri : Bool) : List SItem :=
+  (blockItems c u cs).map (sItemOf c.two announces legacyNlri)
 
 /-- walk from the end of the block: `k` bytes are missing -/
-def truncCls (announces legacyNlri : Bool) : List EAttr → Nat → List Cls
+def truncCls : List SItem → Nat → List Cls
   | [], _ => []
   | a :: rest, k =>
       if k = 0 then (a :: rest).flatMap (·.cls)
+      else if k ≥ a.size then a.gone :: truncCls rest (k - a.size)
       else
-        let sz := attrSize a.flags a.dataLen
-        if k ≥ sz then
-          -- the whole attribute is gone
-          (if isMp a.code then Cls.weak
-           else if a.extra then Cls.none
-           else if (a.code == 1 || a.code == 2) && announces then Cls.taw
-           else if a.code == 3 && legacyNlri then Cls.taw
-           else Cls.none) :: truncCls announces legacyNlri rest (k - sz)
-        else
-          -- cut in the middle
-          [if isMp a.code then Cls.weak
-           else match attrClass a.code with
-             | some _ => malformedCls a.code
-             | none => if a.flags / 128 % 2 == 1 && a.flags / 64 % 2 == 0 then Cls.discardOrTaw a.code else Cls.taw]
-            ++ rest.flatMap (·.cls)
+        -- cut in the middle (an item whose own framing is off stays `weak`)
+        (if a.cls.contains Cls.weak then [Cls.weak] else []) ++
+        [if isMp a.code then Cls.weak
+         else match attrClass a.code with
+           | some _ => malformedCls a.code
+           | none => if a.flags / 128 % 2 == 1 && a.flags / 64 % 2 == 0 then Cls.discardOrTaw a.code else Cls.taw]
+          ++ rest.flatMap (·.cls)
+
+/-- the classes of attributes of `u` that a corruption removed altogether -/
+def omittedCls (c : Codec) (u : CUpdate) (cs : List Corr) (announces legacyNlri : Bool) : List Cls :=
+  ((effAttrs c u cs).take (baseAttrs c u).length).filterMap fun a =>
+    if a.present then none else some (goneCls announces legacyNlri a.code)
 
 /-! ### judging the observation -/
 
@@ -320,25 +272,21 @@ def allIn (want have_ : List PNlri) : Bool := want.all fun p => have_.contains p
 def believes (attrs : List Attr) (code : Nat) (d : Bytes) : Bool :=
   attrs.any fun a => a.code == code &&
     (match a.data with
-     | .val v => d.length == 4 && v == be d || (code == 1 && d == [v])
+     | .val v => (d.length == 4 && v == be d) || (code == 1 && d == [v])
      | .bin b => b == d
      | .opq b => b == d)
+
+def allClasses (c : Codec) (u : CUpdate) (cs : List Corr) : List Cls :=
+  let legacyNlri := !u.nlri.isEmpty
+  let announces := legacyNlri || u.mpr.isSome
+  omittedCls c u cs announces legacyNlri
+    ++ (if legacyNlri && (nlriBad cs).isSome then [Cls.weak] else [])
+    ++ truncCls (sItems c u cs announces legacyNlri).reverse (truncTotal cs)
 
 def check (c : Codec) (ebgp : Bool) (u : CUpdate) (cs : List Corr) (obs : URes) : Verdict :=
   if !wfCase c u cs then .ok
   else
-    let legacyNlri := !u.nlri.isEmpty
-    let announces := legacyNlri || u.mpr.isSome
-    let live := liveCorrs (omitted cs) cs
-    let truncK := live.foldl (fun acc k => match k with | .trunc n => acc + n | _ => acc) 0
-    let framing := live.any fun k => match k with | .lenfield _ _ => true | _ => false
-    let cls := (live.map fun k => match k with
-        | .omit i => classify c.two u announces legacyNlri (.omit i)
-        | .nlribad m => classify c.two u announces legacyNlri (.nlribad m)
-        | .lenfield i l => classify c.two u announces legacyNlri (.lenfield i l)
-        | _ => Cls.none)
-      ++ (if framing && truncK > 0 then [Cls.weak]
-          else truncCls announces legacyNlri (wireAttrsRev c u announces legacyNlri live) truncK)
+    let cls := allClasses c u cs
     let weak := cls.contains .weak
     let mustTaw := cls.contains .taw || cls.contains .tawOrReset
     match obs with
@@ -377,9 +325,7 @@ def check (c : Codec) (ebgp : Bool) (u : CUpdate) (cs : List Corr) (obs : URes) 
                 | .discardOrTaw code => !tawDone && reaches.any (fun attrs => attrs.any (·.code == code))
                 | _ => false
               let badDup := cls.any fun k => match k with
-                | .dup code d =>
-                    let orig := (u.attrs.find? (·.code == code)).map (·.data)
-                    orig != some d && !tawDone && reaches.any (fun attrs => believes attrs code d)
+                | .dup code d => !tawDone && reaches.any (fun attrs => believes attrs code d)
                 | _ => false
               if badDiscard then .fail "malformed-attribute-kept-on-an-announced-route"
               else if badDup then .fail "duplicate-attribute-believed-instead-of-the-first"
